@@ -100,6 +100,13 @@ CHECKS = {
              'compact-size, 256-bit modular arithmetic, Jacobi symbol and secp256k1 implementations; encode/decode pairs must invert each other and reject single-character corruptions; the inline form and the script opcode must give the same bytes as the command.',
         note='trusted: hashlib, ref/codec.py, ref/secp.py; documented leniencies in the evidence assumptions (byte order of jacobi operands, bech32 witness version, reverse of integers not judged)',
         ref='5 C14'),
+    'C15': dict(
+        technique='runtime monitoring: AddressSanitizer+UndefinedBehaviorSanitizer builds of btcc/btcdeb/tap driven one process per case with structure-aware hostile input; valgrind memcheck sample on the plain build',
+        text='Exploration: hostile argument lists, option values, transaction pairs with structural lies (out-of-range prevout and select indices, hostile witness shapes), stdin variants, interactive command sequences '
+             '(step/rewind/exec/tf/print, incl. exec OP_CODESEPARATOR and commands after failure / at the end) and tap invocations; a violation is a signal, sanitizer report, uncaught exception, failed assertion or repeated hang, keyed by '
+             'tool:kind:innermost repository frame:entry frame so that one defect is one finding; plus memcheck (uninitialised reads) on a sample. All behavioural monitors C01-C14 run on the same sanitizer build and report crashes themselves.',
+        note='trusted: gcc ASan/UBSan runtimes, valgrind; scripted-REPL lines are kept under 1500 characters (GNU readline fed from a pipe is outside its design envelope); leaks are outside the property',
+        ref='5 C15'),
     'C16': dict(
         technique='runtime monitoring: reference-model monitor over Instance::eval() at random session prefixes (ASan+UBSan build)',
         text='Exploration: exec token lists (opcode names, decimals, hex pushes, invalid tokens) are issued at the start, middle, last operation and end of model-steered sessions; the state after exec is compared with the reference '
